@@ -112,3 +112,37 @@ def all_compiles(idx: Index, relpath: str):
                 yield (f"{mi.relpath}:{n.lineno}", None, 0, n.lineno)
                 continue
             yield (f"{mi.relpath}:{n.lineno}", pat, fl, n.lineno)
+
+
+def escape_table(bc) -> dict[str, bytes]:
+    """The literal table by which `StringLiteral.bytes_contents` decodes named escapes, whatever it is called and wherever
+    it is written (local of the function, class attribute, module constant): a dict literal from str constants to one-byte
+    bytes constants that the function mentions.  Keys are normalised to the two-character form `\\n`."""
+    import ast as _ast
+
+    from .srcindex import AnalysisError
+
+    cands: list[_ast.Dict] = []
+    for n in _ast.walk(bc.node):
+        if isinstance(n, _ast.Dict):
+            cands.append(n)
+    names = {n.id for n in _ast.walk(bc.node) if isinstance(n, _ast.Name)} | {n.attr for n in _ast.walk(bc.node) if isinstance(n, _ast.Attribute)}
+    for nm, v in getattr(bc.module, "assigns", {}).items():
+        if nm in names and isinstance(v, _ast.Dict):
+            cands.append(v)
+    if bc.cls is not None:
+        for st in bc.cls.node.body:
+            tg = st.targets[0] if isinstance(st, _ast.Assign) and len(st.targets) == 1 else st.target if isinstance(st, _ast.AnnAssign) else None
+            if isinstance(tg, _ast.Name) and tg.id in names and isinstance(getattr(st, "value", None), _ast.Dict):
+                cands.append(st.value)
+    good = []
+    for d in cands:
+        if d.keys and all(isinstance(k, _ast.Constant) and isinstance(k.value, str) and len(k.value) in (1, 2) for k in d.keys) and all(isinstance(v, _ast.Constant) and isinstance(v.value, bytes) and len(v.value) == 1 for v in d.values):
+            good.append(d)
+    if len(good) != 1:
+        raise AnalysisError(f"{bc.fq}: table of named escapes not found ({len(good)} candidate dict literals)")
+    out = {}
+    for k, v in zip(good[0].keys, good[0].values):
+        key = k.value if len(k.value) == 2 else "\\" + k.value  # type: ignore[union-attr]
+        out[key] = v.value  # type: ignore[union-attr]
+    return out
